@@ -36,7 +36,16 @@ def same(a, b):
                                          for k in 'pwlb')
 
 
-def run(vectorized=False, verbose=False, filepath=None, poke=False, pool=None):
+class Budget(Exception):
+    pass
+
+
+def _alarm(signum, frame):
+    raise Budget()
+
+
+def run(vectorized=False, verbose=False, filepath=None, poke=False, pool=None,
+        n_like_max=np.inf):
     s = Sampler(prior, like, n_dim=2, n_live=150, n_batch=30, n_networks=1,
                 vectorized=vectorized, seed=11, filepath=filepath, pool=pool)
     if poke:
@@ -56,22 +65,56 @@ def run(vectorized=False, verbose=False, filepath=None, poke=False, pool=None):
         cls.add_samples = add_samples
     try:
         with contextlib.redirect_stdout(io.StringIO()):
-            s.run(n_eff=400, n_shell=160, verbose=verbose)
+            s.run(n_eff=400, n_shell=160, verbose=verbose,
+                  n_like_max=n_like_max)
     finally:
         if poke:
             cls.add_samples = orig
     return result(s)
 
 
-ref = run()
-for name, kw in [('vectorized', dict(vectorized=True)),
-                 ('verbose', dict(verbose=True)),
-                 ('accessors_between_steps', dict(poke=True)),
-                 ('likelihood_pool2', dict(pool=(2, None))), ('likelihood_pool3', dict(pool=(3, None)))]:
-    if not same(ref, run(**kw)):
-        bad.append(dict(what='result depends on ' + name))
-with tempfile.TemporaryDirectory() as d:
-    if not same(ref, run(filepath=os.path.join(d, 'c.h5'))):
-        bad.append(dict(what='result depends on writing a checkpoint'))
-print(json.dumps(dict(violations=bad)))
+import signal  # noqa: E402
+signal.signal(signal.SIGALRM, _alarm)
+MODES = [('vectorized', dict(vectorized=True)),
+         ('verbose', dict(verbose=True)),
+         ('accessors_between_steps', dict(poke=True)),
+         ('likelihood_pool2', dict(pool=(2, None))),
+         ('likelihood_pool3', dict(pool=(3, None)))]
+undecided = []
+# stage by stage: one batch, a few batches, the full run; a stage is skipped
+# (undecided, never a violation) if a run exceeds its time budget
+for stage, (nmax, budget) in enumerate(((30, 120), (600, 240),
+                                        (np.inf, 600))):
+    if bad:
+        break
+    try:
+        signal.alarm(budget)
+        ref = run(n_like_max=nmax)
+        signal.alarm(0)
+    except Budget:
+        undecided.append('reference run, stage {}'.format(stage))
+        continue
+    for name, kw in MODES:
+        try:
+            signal.alarm(budget)
+            r = run(n_like_max=nmax, **kw)
+            signal.alarm(0)
+        except Budget:
+            undecided.append('{} stage {}'.format(name, stage))
+            continue
+        if not same(ref, r):
+            bad.append(dict(what='result depends on ' + name,
+                            n_like_max=str(nmax), seed=11))
+    with tempfile.TemporaryDirectory() as d:
+        try:
+            signal.alarm(budget)
+            r = run(filepath=os.path.join(d, 'c.h5'), n_like_max=nmax)
+            signal.alarm(0)
+            if not same(ref, r):
+                bad.append(dict(what='result depends on writing a checkpoint',
+                                n_like_max=str(nmax)))
+        except Budget:
+            undecided.append('checkpoint stage {}'.format(stage))
+signal.alarm(0)
+print(json.dumps(dict(violations=bad, undecided=undecided)))
 sys.exit(1 if bad else 0)
